@@ -21,7 +21,7 @@ EXTENDS Naturals, Sequences, FiniteSets, TLC, Json
 CONSTANTS TraceFile, Checks
 TraceLog == ndJsonDeserialize(TraceFile)
 
-Producers == {"P1", "P2"}
+Producers == {"P1", "P2", "N"}     \* "N": the node itself (it owns and publishes events as well; it cannot be told anything)
 Consumers == {"C1", "C2", "C3"}
 EventNames == {"e1", "e2"}
 Procs == Producers \cup Consumers
@@ -85,7 +85,7 @@ Compare(o, s) ==
   ELSE IF "Delivery" \in Checks /\ \E c \in Consumers : o.recv[c] # s.recv[c] THEN "Delivery"
   \* (the order of notifications about DIFFERENT events of one terminated producer is not specified: compare as bags)
   ELSE IF "Gone" \in Checks /\ \E c \in Consumers : BagOf(o.gone[c]) # BagOf(s.gone[c]) THEN "Gone"
-  ELSE IF "Notices" \in Checks /\ \E p \in Producers : o.notices[p] # s.notices[p] THEN "Notices"
+  ELSE IF "Notices" \in Checks /\ \E p \in Producers \ {"N"} : o.notices[p] # s.notices[p] THEN "Notices"
   ELSE ""
 
 ResetRef ==
